@@ -658,6 +658,14 @@ func (i *Interpreter) ExecuteRoute(route *Route, request *Request) (*Response, e
 		routeEnv.Define("auth", authData)
 	}
 
+	// The path parameters were bound first (query defaults may refer to them)
+	// and are bound again last: a parameter that shares its name with a
+	// built-in request variable or a declared query parameter (/search/:query)
+	// is what the route declared under that name, and must not be replaced.
+	for key, value := range params {
+		routeEnv.DefineWithSource(key, value, BindingPathParam)
+	}
+
 	// For SSE routes (SSE constant defined in ast.go), inject the writer
 	// so yield statements can stream events. The writer is provided by the
 	// server handler and implements the SSEWriter interface from executor.go.
